@@ -58,12 +58,14 @@ func init() {
 			fs, ev, inc := rtPart(run, "stress", 24, 800, map[string]int{"C03 committed pairs validated through the API of a running node": 500})
 			return fs, map[string]interface{}{"rt_stress": ev}, inc
 		}})
-	reg(&sim.SimCheck{Prop: "C04", Workload: "c04", Profile: advProfile(merge(map[string]int{"barePP": 5}, map[string]int{"badBlock": 25, "twistedNV": 20, "support": 25, "forgedNV": 8, "equivocate": 10, "crossInstance": 14, "reblock": 30, "vcGames": 28}), 500, 2),
+	reg(&sim.SimCheck{Prop: "C04", Workload: "c04", Profile: withOpts(advProfile(merge(map[string]int{"barePP": 5}, map[string]int{"badBlock": 25, "twistedNV": 20, "support": 25, "forgedNV": 8, "equivocate": 10, "crossInstance": 14, "reblock": 30, "vcGames": 28}), 500, 2), func(p *sim.Profile) {
+		p.SplitPct = 30 // proposals also meet a node whose election trigger sits between its main loop and its worker
+	}),
 		QuickCases: 8000, ThoroughCases: 120000,
 		NonTrivial: func(r *sim.Result) bool { return r.Stats["C04 commits judged"] > 0 && r.Stats["adv badBlock"] > 0 },
 		Rule:       "as C01 with Byzantine leaders proposing blocks every correct validator rejects (view 0, inside NEW_VIEWs) and per-node consumer rejections; non-trivial = a commit was judged in a case where a bad block had been proposed",
 		Floors:     map[string]int{"C04 commits judged": 1000, "adv badBlock": 500},
-		Judged:     []string{"C04 commits judged"}})
+		Judged:     []string{"C04 commits judged", "C04 votes for standalone proposals judged"}})
 	reg(&sim.SimCheck{Prop: "C07", Workload: "c07", Profile: withOpts(advProfile(map[string]int{"forgedNV": 20, "twistedNV": 20, "barePP": 8, "mutate": 30, "crossInstance": 12, "vcGames": 14}, 450, 2), func(p *sim.Profile) { p.MinN = 5 }),
 		QuickCases: 5000, ThoroughCases: 100000,
 		NonTrivial: func(r *sim.Result) bool { return r.Stats["C07 prepares judged"]+r.Stats["C07 adoptions judged"] > 0 },
